@@ -10,6 +10,7 @@ import (
 	"go/types"
 	"strings"
 
+	"golang.org/x/tools/go/packages"
 	"golang.org/x/tools/go/ssa"
 )
 
@@ -33,7 +34,68 @@ func (p *Prog) Func(pkgSuffix, recv, name string) *ssa.Function {
 		}
 	}
 	/* Not under that name: under another? */
-	return p.renamedFunc(path, recv, name)
+	if f := p.renamedFunc(path, recv, name); nil != f {
+		return f
+	}
+	/* Under that name in another package of the module (moved with its
+	type, or the type is now an alias of one declared elsewhere): the only
+	function of that receiver and name there is. */
+	want := recv
+	if "" != recv {
+		if pk := p.ByPath[path]; nil != pk {
+			if tn, ok := pk.Types.Scope().Lookup(recv).(*types.TypeName); ok && tn.IsAlias() {
+				if nt, isNamed := types.Unalias(tn.Type()).(*types.Named); isNamed {
+					want = nt.Obj().Name()
+				}
+			}
+		}
+	}
+	var found []*ssa.Function
+	for _, f := range p.funcs {
+		if nil == f.Pkg || f.Name() != name || nil != f.Parent() || "" != f.Synthetic || !strings.HasPrefix(f.Pkg.Pkg.Path(), ModPath) {
+			continue
+		}
+		if "" == recv {
+			/* A plain function: only when its old package is gone or no longer has it. */
+			if nil == f.Signature.Recv() && f.Pkg.Pkg.Path() != path {
+				found = append(found, f)
+			}
+			continue
+		}
+		if r := recvTypeName(f); r == want || r == recv {
+			found = append(found, f)
+		}
+	}
+	if 1 == len(found) {
+		return found[0]
+	}
+	return nil
+}
+
+// lookupObj: the package-level object of that name in pk, or — when it has
+// moved — the only one of that name in the module.
+func lookupObj(pk *packages.Package, name string) types.Object {
+	if nil != pk {
+		if o := pk.Types.Scope().Lookup(name); nil != o {
+			return o
+		}
+	}
+	if nil == theProg {
+		return nil
+	}
+	var found []types.Object
+	for _, q := range theProg.Pkgs {
+		if q == pk || !strings.HasPrefix(q.PkgPath, ModPath) {
+			continue
+		}
+		if o := q.Types.Scope().Lookup(name); nil != o {
+			found = append(found, o)
+		}
+	}
+	if 1 == len(found) {
+		return found[0]
+	}
+	return nil
 }
 
 // recvTypeName returns the name of f's receiver's named type, or "".
@@ -241,9 +303,63 @@ func fieldValOf(v ssa.Value) (*types.Var, ssa.Value) {
 // field and x.
 func loadedField(v ssa.Value) (*types.Var, ssa.Value) {
 	if u, ok := v.(*ssa.UnOp); ok && token.MUL == u.Op {
-		return fieldAddrOf(u.X)
+		fv, base := fieldAddrOf(u.X)
+		return canonChanField(fv), base
 	}
-	return fieldValOf(v)
+	fv, base := fieldValOf(v)
+	return canonChanField(fv), base
+}
+
+// canonChanField: a channel kept in a field which only ever receives the
+// channel another field holds (a small struct made per call and given the
+// broker's channel: inputProxier{lines: b.ich}) is that other field's
+// channel; reads of it are reads of that field.
+var chanFieldAlias map[*types.Var]*types.Var
+
+func canonChanField(fv *types.Var) *types.Var {
+	if nil == fv || nil == theProg {
+		return fv
+	}
+	if _, isChan := fv.Type().Underlying().(*types.Chan); !isChan {
+		return fv
+	}
+	if nil == chanFieldAlias {
+		chanFieldAlias = map[*types.Var]*types.Var{}
+	}
+	if t, ok := chanFieldAlias[fv]; ok {
+		return t
+	}
+	chanFieldAlias[fv] = fv /* (guards against cycles) */
+	target := fv
+	sts := theProg.storesToField(fv)
+	var src *types.Var
+	okAll := 0 != len(sts)
+	for _, st := range sts {
+		var g *types.Var
+		if u, isLd := stripConv(st.Val, false).(*ssa.UnOp); isLd && token.MUL == u.Op {
+			g, _ = fieldAddrOf(u.X)
+		} else {
+			g, _ = fieldValOf(stripConv(st.Val, false))
+		}
+		if nil == g || g == fv {
+			okAll = false
+			break
+		}
+		if _, isChan := g.Type().Underlying().(*types.Chan); !isChan {
+			okAll = false
+			break
+		}
+		if nil != src && src != g {
+			okAll = false
+			break
+		}
+		src = g
+	}
+	if okAll && nil != src {
+		target = canonChanField(src)
+	}
+	chanFieldAlias[fv] = target
+	return target
 }
 
 func derefStruct(t types.Type) *types.Struct {
@@ -314,7 +430,7 @@ func (p *Prog) Field(pkgSuffix, typ, name string) *types.Var {
 	if nil == pk {
 		return nil
 	}
-	obj := pk.Types.Scope().Lookup(typ)
+	obj := lookupObj(pk, typ)
 	if nil == obj {
 		return nil
 	}
@@ -587,8 +703,17 @@ func (p *Prog) resolveUp(v ssa.Value) ssa.Value {
 				}
 				return v
 			}
-			if nil == fn || nil != fn.Parent() || !inModule(fn) || ast.IsExported(fn.Name()) {
+			if nil == fn || nil != fn.Parent() || !inModule(fn) {
 				return v
+			}
+			if ast.IsExported(fn.Name()) {
+				/* Exported, but with no callers the module does not show:
+				below internal/, or standing in for a private function
+				of the reference tree which moved. */
+				_, img := renameImage[fn]
+				if !img && (nil == fn.Pkg || !strings.Contains(fn.Pkg.Pkg.Path()+"/", "/internal/")) {
+					return v
+				}
 			}
 			cs := p.callersOf(fn)
 			if 1 != len(cs) || 1 != len(p.usesOfFunc(fn)) {
